@@ -1219,6 +1219,22 @@ func (g *Gen) misuseOp() *Op {
 			}
 		}
 		op.Sub = 0
+	case "badquery":
+		// a typed tuple (any arity 1..8) with a relation component
+		byArity := map[int][]int{}
+		var ar []int
+		for ti := range typed.Tuples {
+			cs := typed.Tuples[ti].Comps
+			if typed.Tuples[ti].NewFilter != nil && SetOf(cs...).Intersects(RelMask) {
+				if len(byArity[len(cs)]) == 0 {
+					ar = append(ar, len(cs))
+				}
+				byArity[len(cs)] = append(byArity[len(cs)], ti)
+			}
+		}
+		l := byArity[ar[R.Intn(len(ar))]]
+		op.Tuple = l[R.Intn(len(l))]
+		op.Sub = R.Intn(3)
 	case "debugguardN":
 		e, ok := g.pickAliveWhere(func(e EID, st *MEnt) bool { return st.Mask.Len() >= 1 })
 		if !ok {
